@@ -30,6 +30,7 @@ SCRIPT_DEFAULTS = dict(
     p_orders_cb=0.0,
     liabilities=(2.0, 10.0, 15.5, 30.0),
     sides=("BACK", "LAY"),
+    p_finest=0.0,  # order on the FINEST ladder (0.01 steps everywhere)
 )
 
 
@@ -108,6 +109,9 @@ def gen_script(rng, snaps, market_id, name, params=None, ref_prefix=""):
             act["price"] = pick_price(rng, snap["runners"][key], side, rng.choice(p["modes"]))
             act["size"] = rng.choice(p["sizes"])
             act["persistence"] = rng.choice(PERSIST)
+            if rng.random() < p["p_finest"]:
+                act["ladder"] = "FINEST"
+                act["price"] = round(min(1000.0, max(1.01, act["price"] + rng.choice((-0.01, 0.01, 0.03)))), 2)
             if rng.random() < p["p_fok"]:
                 act["tif"] = "FILL_OR_KILL"
                 mf = rng.choice((None, "lt", "eq", "gt", "tiny"))
